@@ -1013,8 +1013,12 @@ func callBuiltin(caller *frame, callpos token.Pos, fn *ssa.Builtin, args []value
 			}
 			return arg0
 		}
-		// append([]T, ...[]T) []T
-		return append(args[0].([]value), args[1].([]value)...)
+		// append([]T, ...[]T) []T — elements of struct / array type are values: copy them
+		dst := args[0].([]value)
+		for _, el := range args[1].([]value) {
+			dst = append(dst, copyElem(el))
+		}
+		return dst
 
 	case "copy": // copy([]T, []T) int or copy([]byte, string) int
 		src := args[1]
@@ -1022,7 +1026,16 @@ func callBuiltin(caller *frame, callpos token.Pos, fn *ssa.Builtin, args []value
 			params := fn.Type().(*types.Signature).Params()
 			src = conv(caller.i.ex, params.At(0).Type(), params.At(1).Type(), src)
 		}
-		return copy(args[0].([]value), src.([]value))
+		dstS, srcS := args[0].([]value), src.([]value)
+		n := len(srcS)
+		if len(dstS) < n {
+			n = len(dstS)
+		}
+		tmp := make([]value, n)
+		for k := 0; k < n; k++ {
+			tmp[k] = copyElem(srcS[k])
+		}
+		return copy(dstS, tmp)
 
 	case "close": // close(chan T)
 		close(args[0].(chan value))
@@ -1614,3 +1627,23 @@ func fandbits[F floaty](x, y F) F {
 }
 
 func isSymStr(v value) bool { _, ok := v.(symStr); return ok }
+
+// copyElem copies a value of struct or array type (they are Go values, not
+// references); everything else is returned as is.
+func copyElem(v value) value {
+	switch x := v.(type) {
+	case structure:
+		out := make(structure, len(x))
+		for k, f := range x {
+			out[k] = copyElem(f)
+		}
+		return out
+	case array:
+		out := make(array, len(x))
+		for k, f := range x {
+			out[k] = copyElem(f)
+		}
+		return out
+	}
+	return v
+}
